@@ -101,6 +101,12 @@ Example c17_any_order_nonvacuous :
 Proof. split; vm_compute; reflexivity. Qed.
 Print Assumptions c17_any_order_nonvacuous.
 
+(* the hypotheses of c17_any_order_generated hold for the harness's graphs (same witness) *)
+Example c17_any_order_generated_nonvacuous :
+  forallb (fun p => scenario_ok p false && scenario_ok p true) [PubSub; Event; ReqRes; Blackboard] = true.
+Proof. exact (proj1 c17_any_order_nonvacuous). Qed.
+Print Assumptions c17_any_order_generated_nonvacuous.
+
 (* Non-vacuity of the survivor theorem: in the one-node pub-sub graph, after dropping node,
    service handle, publisher and subscriber, the loan (SampleMut) and the received Sample are
    alive and so are the cores they keep: 19 of the 24 objects are still alive, among them the
